@@ -41,7 +41,7 @@ def stress(c, binary, obj, goroutines, ops, rounds, seed_off=0):
     if first.startswith("ok "):
         return None
     kind = first.split()[0].rstrip(":")
-    if kind not in ("panic", "not-linearizable", "hang", "checker-timeout"):
+    if kind not in ("panic", "not-linearizable", "hang"):
         kind = "crash"
     return {"object": obj, "kind": kind, "result": first[:400], "history": out.splitlines()[1:80],
             "how": "h c06-locked-stress %d %s %d %d %d   (instrumented harness, chaos mode; prints the first failing round and its history)"
